@@ -351,7 +351,22 @@ func (db *DB) CommitForwardedLTX(ctx context.Context, lockID int64, r io.Reader)
 		return ErrHaltLockNotHeld
 	}
 
-	ltxPath, err := db.WriteLTXFileAt(ctx, r)
+	// The holder of the halt lock writes from this node's position on. A file that
+	// starts the log again (a snapshot) passes WriteLTXFileAt at any position and
+	// replaces the database and its log; from a forwarding client that is only
+	// right for a database that has no transaction yet.
+	buf := make([]byte, ltx.HeaderSize)
+	var hdr ltx.Header
+	if n, err := io.ReadFull(r, buf); err != nil {
+		return fmt.Errorf("read ltx header: n=%d %w", n, err)
+	} else if err := hdr.UnmarshalBinary(buf); err != nil {
+		return fmt.Errorf("decode ltx header: %w", err)
+	}
+	if pos := db.Pos(); hdr.IsSnapshot() && pos.TXID != 0 {
+		return fmt.Errorf("non-sequential header minimum txid %s, expecting %s", hdr.MinTXID.String(), (pos.TXID + 1).String())
+	}
+
+	ltxPath, err := db.WriteLTXFileAt(ctx, io.MultiReader(bytes.NewReader(buf), r))
 	if err != nil {
 		return fmt.Errorf("write ltx file: %w", err)
 	}
